@@ -156,10 +156,23 @@ var CurrentCall atomic.Value
 func armWatchdog(run int, limit time.Duration) *time.Timer {
 	return time.AfterFunc(limit, func() {
 		cc, _ := CurrentCall.Load().(string)
+		if stallIsHarnessTrouble {
+			// engines that run the library under the simrt scheduler: deadlocks on the library's
+			// locks are found by the scheduler's own model; a run that stalls beyond that is a task
+			// blocked on a primitive the scheduler does not model (a channel, sync.Cond, ...), which
+			// says nothing about the property: harness trouble (exit 2), never a violation
+			fmt.Fprintf(os.Stderr, "\nVERIF-STALL run=%d: the simulation did not finish within %s (a task blocked on a primitive the scheduler does not model?); last operation: %s\n", run, limit, cc)
+			os.Exit(2)
+		}
 		fmt.Fprintf(os.Stderr, "\nVERIF-HANG run=%d: the run did not finish within %s; last call into the library: %s\n", run, limit, cc)
 		os.Exit(3)
 	})
 }
+
+var stallIsHarnessTrouble bool
+
+// Staller is implemented by engines for which a stalled run is harness trouble, not a finding.
+type Staller interface{ StallIsHarnessTrouble() bool }
 
 // RunOne executes run number `run` of (seed, property) in search mode.
 func RunOne(e Engine, seed uint64, run int, o Opt) (Out, *choice.Src) {
@@ -198,6 +211,9 @@ func Main(engines map[string]Engine) {
 		os.Exit(2)
 	}
 	o := Opt{Property: *prop, Tier: *tier, Mode: *mode}
+	if st, ok := e.(Staller); ok {
+		stallIsHarnessTrouble = st.StallIsHarnessTrouble()
+	}
 
 	if *replay != "" {
 		os.Exit(doReplay(e, *replay))
